@@ -72,9 +72,24 @@ RulesBlk ==
     28 :> B2(0, <<>>, <<[amt |-> Pow63, addr |-> 1, st |-> 1], [amt |-> AmtAdd(Pow63, A(50, 0)), addr |-> 2, st |-> 1]>>) @@
     29 :> B(0, <<217>>, 50, FEE) @@
     30 :> B(0, <<218>>, 50, FEE) @@
-    31 :> B(30, <<219>>, 50, FEE)
+    31 :> B(30, <<219>>, 50, FEE) @@
+    32 :> B2(0, <<>>, <<O(50, 0, 9, 1), [amt |-> Zero, addr |-> 20001, st |-> 7]>>) @@    \* 80004 sigops in the coinbase
+    33 :> B2(0, <<>>, <<O(50, 0, 9, 1), [amt |-> Zero, addr |-> 20000, st |-> 7]>>)       \* exactly 80000: valid
 
-RulesBlocks == 1..31
+RulesBlocks == 1..33
+
+(* C04 family Wrap: 8785 outputs, each within the money range, whose total is 2^64 + 1000 satoshi (wraps to   *)
+(* 1000 in uint64).  A family of its own: TLC re-evaluates the 8785-element definition on every access.       *)
+WrapOuts == [k \in 1..8785 |-> IF k <= 8784 THEN [amt |-> MaxMoney, addr |-> 1, st |-> 1]
+                                             ELSE [amt |-> A(3440737, 9552616), addr |-> 2, st |-> 1]]
+WrapTx ==
+    220 :> T(<<In(14, 1)>>, WrapOuts) @@
+    221 :> T(<<In(15, 1)>>, <<O(49, 99900000, 1, 1)>>)
+WrapBlk ==
+     1 :> B(0, <<220>>, 50, 0) @@
+     2 :> B(0, <<221>>, 50, FEE) @@
+     3 :> B(2, <<220>>, 50, 0)
+WrapBlocks == 1..3
 
 ----------------------------------------------------------------------------
 (* C06 family A: A1-A2-A3 against B1-B2-B3-B4 where B3 is invalid only when connected,   *)
@@ -161,4 +176,42 @@ CrashBlk ==
      7 :> B(2, <<>>, 50, 0) @@                 \* A3
      8 :> B(5, <<>>, 50, 0)                    \* B4
 CrashBlocks == 1..8
+(* C06 family C: undo data is keyed by height.  A2 spends X at height 122; the node reorganises to B, which    *)
+(* spends X at height 121 and has an EMPTY block at 122; branch C forks above B's spender and disconnects that *)
+(* empty block: whatever undo record is used for height 122 then must be B2's (empty), not A2's.               *)
+ForkCTx ==
+    401 :> T(<<In(2, 1)>>, <<O(49, 99900000, 1, 1)>>) @@
+    402 :> T(<<In(1, 1)>>, <<O(30, 0, 1, 1), O(19, 99900000, 2, 2)>>) @@
+    403 :> T(<<In(1, 1)>>, <<O(49, 99900000, 3, 1)>>)
+ForkCBlk ==
+     1 :> B(0, <<401>>, 50, FEE) @@            \* A1
+     2 :> B(1, <<402>>, 50, FEE) @@            \* A2 spends X = (1,1) at height 122
+     3 :> B(0, <<403>>, 50, FEE) @@            \* B1 spends X at height 121
+     4 :> B(3, <<>>, 50, 0) @@                 \* B2 empty, height 122
+     5 :> B(4, <<>>, 50, 0) @@                 \* B3
+     6 :> B(3, <<>>, 50, 0) @@                 \* C2 on B1
+     7 :> B(6, <<>>, 50, 0) @@                 \* C3
+     8 :> B(7, <<>>, 50, 0)                    \* C4
+ForkCBlocks == 1..8
+
+(* C06/C04 family D: a side branch that is invalid only because of a witness rule (wrong witness script for a *)
+(* P2WSH output, wrong key for P2WPKH) and is reached through a reorganisation, interleaved with Idle calls;  *)
+(* the invalid block has a child, so the whole branch must go                                                 *)
+ForkDTx ==
+    411 :> T(<<In(1, 1)>>, <<O(25, 0, 1, 2), O(24, 99900000, 2, 5)>>) @@
+    412 :> T(<<InBad(411, 1)>>, <<O(24, 99900000, 3, 1)>>) @@
+    413 :> T(<<InBad(411, 2)>>, <<O(24, 99800000, 3, 1)>>) @@
+    414 :> T(<<In(2, 1)>>, <<O(49, 99900000, 4, 1)>>) @@
+    415 :> T(<<In(411, 1), In(411, 2)>>, <<O(49, 99800000, 3, 1)>>)
+ForkDBlk ==
+     1 :> B(0, <<414>>, 50, FEE) @@            \* A1
+     2 :> B(1, <<>>, 50, 0) @@                 \* A2
+     3 :> B(0, <<411>>, 50, FEE) @@            \* D1
+     4 :> B(3, <<412>>, 50, FEE) @@            \* D2 : bad witness script
+     5 :> B(4, <<>>, 50, 0) @@                 \* D3 : child of the invalid block
+     6 :> B(3, <<413>>, 50, FEE) @@            \* D2' : bad P2WPKH signature
+     7 :> B(6, <<>>, 50, 0) @@                 \* D3'
+     8 :> B(3, <<415>>, 50, FEE) @@            \* D2'' : valid
+     9 :> B(8, <<>>, 50, 0)                    \* D3''
+ForkDBlocks == 1..9
 =============================================================================
